@@ -264,6 +264,36 @@ def h_header_bits(ctx, sub, sf, shf):
     ctx.holds("remove_entry finds it", v.remove_entry(rid) == True)  # noqa: E712
 
 
+def h_tc_object_reused(ctx, sub, field):
+    """the sender keeps one PusTc object and moves it on to the next command (next sequence count / another APID) after
+    registering the previous one: both commands are tracked, each report finds its own"""
+    tc = mk_tc(apid=0x22, sc=7)
+    first_sent = bytes(items_of(tc.pack())[:4])
+    v = PusVerificator()
+    ctx.holds("first telecommand accepted", v.add_tc(tc) == True)  # noqa: E712
+    if field == "seq_count":
+        tc.seq_count = 8
+    elif field == "apid":
+        tc.apid = 0x23
+    else:
+        tc.sp_header.seq_count = 9
+    second_sent = bytes(items_of(tc.pack())[:4])
+    ctx.holds("the moved-on object is a new telecommand, not a duplicate", v.add_tc(tc) == True and len(v.verif_dict) == 2)  # noqa: E712
+    rid1, rid2 = RequestId.unpack(first_sent), RequestId.unpack(second_sent)
+    ctx.holds("both request ids are tracked", rid1 in v.verif_dict and rid2 in v.verif_dict and v.verif_dict[rid1] is not v.verif_dict[rid2])
+    step = PacketFieldEnum.with_byte_size(1, ctx.int("step", 0, 255)) if sub in (5, 6) else None
+    fn = FailureNotice(PacketFieldEnum.with_byte_size(1, ctx.int("code", 0, 255)), b"") if sub in (2, 4, 6, 8) else None
+    rep1 = Service1Tm.unpack(Service1Tm(0x10, sub, b"", VerificationParams(rid1, step, fn)).pack(), UnpackParams(0, 1, 1))
+    res = v.add_tm(rep1)
+    ctx.holds("a report for the first telecommand finds it", res is not None)
+    if res is not None:
+        st2 = v.verif_dict.get(rid2)
+        ctx.holds("...and leaves the second telecommand's entry alone", st2 is not None and st2 is not res.status and sym_and(
+            st2.accepted == -1, st2.started == -1, st2.step == -1, st2.completed == -1))
+    ctx.holds("removing the first by its request id works and keeps the second", v.remove_entry(rid1) == True  # noqa: E712
+              and rid2 in v.verif_dict and len(v.verif_dict) == 1)
+
+
 def h_remove_completed(ctx):
     tcs = [mk_tc(), mk_tc(apid=0x23), mk_tc(sc=8)]
     v = PusVerificator()
@@ -309,5 +339,9 @@ def cases(tier):
             for shf in (0, 1):
                 cs.append(Case("header-bits-s%d-sf%d-shf%d" % (sub, sf, shf), "isolation", h_header_bits, dict(sub=sub, sf=sf, shf=shf),
                                bounds="telecommand with sequence flags %d, secondary-header flag %d; report subservice %d, all step/code values" % (sf, shf, sub)))
+    for sub in tier_pick(tier, (1, 6), tuple(range(1, 9))):
+        for field in ("seq_count", "apid", "header"):
+            cs.append(Case("tc-object-reused-s%d-%s" % (sub, field), "isolation", h_tc_object_reused, dict(sub=sub, field=field),
+                           bounds="one PusTc object registered, changed (%s), registered again; report subservice %d" % (field, sub)))
     cs.append(Case("remove-completed", "remove", h_remove_completed, {}, bounds="three entries, all 2^3 finished-flag assignments"))
     return cs
